@@ -515,7 +515,7 @@ func dischargeAll(res *FuncResult, dir string, timeoutS, seed, par int, modelVar
 			go func(o *Obligation) {
 				defer wg2.Done()
 				defer func() { <-sem2 }()
-				r := solve(o.Detail, 3*timeoutS, seed+1)
+				r := solve(o.Detail, 5*timeoutS, seed+1)
 				o.Ms += r.ms
 				switch r.status {
 				case "unsat":
